@@ -1,7 +1,7 @@
 // Package sites holds the Go call sites from which the harness calls gerror's factory methods.
 //
 // The derived Source of an error is computed by gerror from the *caller's* frame name, so every
-// site repeats the same switch over the 19 methods in its own function body (a shared helper would
+// site repeats the same switch over the 19 methods (and the helper gerror.ExtMsgf) in its own function body (a shared helper would
 // make the helper the caller).  Each site first records its own call stack with runtime.Callers /
 // CallersFrames — independently of gerror, which uses FuncForPC — and returns it next to the result.
 // The switch bodies are identical on purpose; they were produced mechanically.
@@ -85,6 +85,12 @@ func Plain(f gerror.Factory, c *Call) (r gerror.Error, fr []string) {
 		r = f.Convert(c.Err)
 	case "ConvertS":
 		r = f.ConvertS(c.Err)
+	case "ExtMsgf":
+		// the package-level helper, handed the value itself
+		r, _ = gerror.ExtMsgf(f, c.Format, c.Elems...).(gerror.Error)
+	case "ExtMsgfForeign":
+		// … or an error that is not a gerror value (f is not used)
+		r, _ = gerror.ExtMsgf(c.Err, c.Format, c.Elems...).(gerror.Error)
 	}
 	return r, fr
 }
@@ -134,6 +140,12 @@ func (t *T) PtrMethod(f gerror.Factory, c *Call) (r gerror.Error, fr []string) {
 		r = f.Convert(c.Err)
 	case "ConvertS":
 		r = f.ConvertS(c.Err)
+	case "ExtMsgf":
+		// the package-level helper, handed the value itself
+		r, _ = gerror.ExtMsgf(f, c.Format, c.Elems...).(gerror.Error)
+	case "ExtMsgfForeign":
+		// … or an error that is not a gerror value (f is not used)
+		r, _ = gerror.ExtMsgf(c.Err, c.Format, c.Elems...).(gerror.Error)
 	}
 	return r, fr
 }
@@ -180,6 +192,12 @@ func (t T) ValMethod(f gerror.Factory, c *Call) (r gerror.Error, fr []string) {
 		r = f.Convert(c.Err)
 	case "ConvertS":
 		r = f.ConvertS(c.Err)
+	case "ExtMsgf":
+		// the package-level helper, handed the value itself
+		r, _ = gerror.ExtMsgf(f, c.Format, c.Elems...).(gerror.Error)
+	case "ExtMsgfForeign":
+		// … or an error that is not a gerror value (f is not used)
+		r, _ = gerror.ExtMsgf(c.Err, c.Format, c.Elems...).(gerror.Error)
 	}
 	return r, fr
 }
@@ -227,6 +245,12 @@ func Closure(f gerror.Factory, c *Call) (r gerror.Error, fr []string) {
 			r = f.Convert(c.Err)
 		case "ConvertS":
 			r = f.ConvertS(c.Err)
+		case "ExtMsgf":
+			// the package-level helper, handed the value itself
+			r, _ = gerror.ExtMsgf(f, c.Format, c.Elems...).(gerror.Error)
+		case "ExtMsgfForeign":
+			// … or an error that is not a gerror value (f is not used)
+			r, _ = gerror.ExtMsgf(c.Err, c.Format, c.Elems...).(gerror.Error)
 		}
 	}()
 	return r, fr
@@ -276,6 +300,12 @@ func (t *T) Nested(f gerror.Factory, c *Call) (r gerror.Error, fr []string) {
 				r = f.Convert(c.Err)
 			case "ConvertS":
 				r = f.ConvertS(c.Err)
+			case "ExtMsgf":
+				// the package-level helper, handed the value itself
+				r, _ = gerror.ExtMsgf(f, c.Format, c.Elems...).(gerror.Error)
+			case "ExtMsgfForeign":
+				// … or an error that is not a gerror value (f is not used)
+				r, _ = gerror.ExtMsgf(c.Err, c.Format, c.Elems...).(gerror.Error)
 			}
 		}()
 	}()
@@ -324,6 +354,12 @@ func Generic[X any](_ X, f gerror.Factory, c *Call) (r gerror.Error, fr []string
 		r = f.Convert(c.Err)
 	case "ConvertS":
 		r = f.ConvertS(c.Err)
+	case "ExtMsgf":
+		// the package-level helper, handed the value itself
+		r, _ = gerror.ExtMsgf(f, c.Format, c.Elems...).(gerror.Error)
+	case "ExtMsgfForeign":
+		// … or an error that is not a gerror value (f is not used)
+		r, _ = gerror.ExtMsgf(c.Err, c.Format, c.Elems...).(gerror.Error)
 	}
 	return r, fr
 }
@@ -373,6 +409,12 @@ func (g *G[X]) GenMethod(f gerror.Factory, c *Call) (r gerror.Error, fr []string
 		r = f.Convert(c.Err)
 	case "ConvertS":
 		r = f.ConvertS(c.Err)
+	case "ExtMsgf":
+		// the package-level helper, handed the value itself
+		r, _ = gerror.ExtMsgf(f, c.Format, c.Elems...).(gerror.Error)
+	case "ExtMsgfForeign":
+		// … or an error that is not a gerror value (f is not used)
+		r, _ = gerror.ExtMsgf(c.Err, c.Format, c.Elems...).(gerror.Error)
 	}
 	return r, fr
 }
@@ -423,6 +465,12 @@ func Deep(n int, f gerror.Factory, c *Call) (r gerror.Error, fr []string) {
 		r = f.Convert(c.Err)
 	case "ConvertS":
 		r = f.ConvertS(c.Err)
+	case "ExtMsgf":
+		// the package-level helper, handed the value itself
+		r, _ = gerror.ExtMsgf(f, c.Format, c.Elems...).(gerror.Error)
+	case "ExtMsgfForeign":
+		// … or an error that is not a gerror value (f is not used)
+		r, _ = gerror.ExtMsgf(c.Err, c.Format, c.Elems...).(gerror.Error)
 	}
 	return r, fr
 }
